@@ -37,7 +37,7 @@ def fp_ast(nd, memo=None):
     if id(nd) in memo:
         return memo[id(nd)]
     if isinstance(nd, TableImpl):
-        r = ("Src", id(nd), nd.name, tuple((n, str(c._uuid)) for n, c in nd.cols.items()))
+        r = ("Src", id(nd), nd.name, tuple((n, str(c._uuid), str(getattr(c, "_dtype", None))) for n, c in nd.cols.items()))
     else:
         own = [type(nd).__name__, nd.name]
         if isinstance(nd, V.Select):
@@ -67,7 +67,7 @@ def fp_ast(nd, memo=None):
 
 def fp_cache(c):
     return (tuple((n, str(u)) for n, u in c.name_to_uuid.items()), tuple((str(u), n) for u, n in c.uuid_to_name.items()),
-            tuple(str(u) for u in c.partition_by), tuple(sorted(str(u) for u in c.cols.keys())),
+            tuple(str(u) for u in c.partition_by), tuple(sorted((str(u), str(getattr(col, "_dtype", None))) for u, col in c.cols.items())),   # the columns WITH their types
             c.limit, tuple(sorted(str(u) for u in c.group_by)), c.is_filtered,
             tuple(sorted(id(n) for n in c.derived_from)))
 
